@@ -14,7 +14,7 @@ DRIVER = "drv_persist"
 HARNESS_BIN = "persist"
 HARNESS_FEATURES = ""
 PARTIAL = [
-    "crash_sound_core is proved in full for the CORE model (input + normal queries, ordered reads, dynamic dependency "
+    "crash_sound_core is proved in full for the CORE model (input, normal and external-input queries, ordered reads and unordered groups, refresh, dynamic dependency "
     "sets): every image of the store between two logical write batches of any history — including the images in the "
     "middle of a query, with the dirty edges of keys still in progress as the store still has them — satisfies the C01 "
     "invariant, shows the inputs of a prefix of the history, and the engine reopened on it answers every query with "
